@@ -56,6 +56,12 @@ def search(prop, names, failure, repo):
             # the search's own oracle could not read a value (e.g. a hand-written Debug impl): not a witness
             res.setdefault('oracle_failures', []).append(m.group(1))
             continue
+        if prop == 'C19' and re.search(r'stderr', bl) and not re.search(r'stdout', bl.split('actual:')[-1] if 'actual:' in bl else ''):
+            # octets on stderr from a crashing child are the runtime's panic/abort message: C01's business
+            c01 = search('C01', names, failure, repo)
+            if c01 and c01.get('failing_input'):
+                res.setdefault('discounted_crash_witnesses', []).append(m.group(1))
+                continue
         ma = re.search(r'(?m)^\s+actual:\s*(.*)$', bl)
         crash = bool(ma and re.match(r'(PANIC|ABORT|HANG)', ma.group(1)))
         encoder_side = bool(re.match(r'(encode-avps|encode-messages|hide|writer-ops|bitmask)\b', m.group(2).strip()))
